@@ -419,6 +419,17 @@ def all_nodes(tree):
 
 
 def gen_edit(rng, tree, cfg):
+    """Generate one edit descriptor (see _gen_edit).  Harness guard: an int put to ImportFrom.level becomes that many dots
+    in the source; unique-token numbers such as 91203 would make a 90 kB line that only slows the harness's tokenizer."""
+    op = _gen_edit(rng, tree, cfg)
+    if op is not None and op.get('field') == 'level' and isinstance(op.get('code'), dict):
+        t = op['code'].get('text')
+        if isinstance(t, str) and t.strip().isdigit() and int(t) > 40:
+            op['code'] = dict(op['code'], text=str(int(t) % 7))
+    return op
+
+
+def _gen_edit(rng, tree, cfg):
     """Generate one edit descriptor against the current pure AST `tree` (a Module)."""
     weights = cfg.get('weights', DEFAULT_WEIGHTS)
     kinds = sorted(weights)
